@@ -160,6 +160,10 @@ def c02_steps(tier, seed):
         native("reg-shared-raise", ["w_reg", "--mode", "sharedlog", "--phase", "raise", "--rounds", rounds, "--seed", seed + 400]),
         miri("registry-miri", "m_registry", ["--shape", seed + 3], 16 if q else 384, timeout=400 if q else 3600),
         native("reg-owner-istep", ["w_reg", "--mode", "owner", "--phase", "istep", "--killers", 0, "--rounds", 8 if q else 160, "--ops", 80, "--seed", seed + 500], timeout=300 if q else 2400),
+        # the snapshot a delivery walks stays intact until the delivery has left it: deliveries held inside their read
+        # section while a writer registers / removes / registers a never-seen signal (two publications); a writer that
+        # returns (and has freed the snapshot) while they are inside leaves them running whatever the memory holds next
+        native("snapshot-kept-for-held-deliveries", ["w_live", "--mode", "gate", "--trials", 200 if q else 3000, "--seed", seed + 600], also=["C01"], timeout=600),
     ]
 
 
@@ -174,7 +178,9 @@ PLANS["C02"] = {
         "second mode: 3 mutators share 2 signals (every action has one owner thread): per bracket nothing twice, nothing of another "
         "signal, must-run (registration returned before ENTER, removal not called before EXIT), must-not-run (removal returned before "
         "ENTER / registration called after EXIT) and real-time registration order of the actions that ran; "
-        "instruction-step phase: the delivery is nested on the owner at the k-th instruction after a writer-side hook site of its own call",
+        "instruction-step phase: the delivery is nested on the owner at the k-th instruction after a writer-side hook site of its own call; "
+        "held-delivery step: 1-3 deliveries are parked inside the read section (before their first action / right after taking the "
+        "snapshot) while a writer registers, removes or registers a never-seen signal; the writer must not return while they are inside",
         ["exactness of 'some instant' is limited to single-owner signals; shared signals get the must-run / must-not-run / order rules"]),
     "floor": floor_counters(c02_nontrivial_brackets=50, c02_nested_brackets=1),
 }
@@ -582,6 +588,10 @@ def c03_steps(tier, seed):
         native("late-handler-on-top", ["w_chain", "--seed", seed + 37, "--reps", 1], timeout=600),
         # an armed shutdown must leave with _exit: running exit-time hooks inside the handler is not async-signal-safe
         native("armed-shutdown-no-exit-hooks", ["w_flag", "--seed", seed + 35, "--scripts", 300 if q else 5000], also=["C15"]),
+        # three parties: deliveries held inside the dispatcher, a writer in the middle of the first registration of another
+        # signal (it has to wait for them), and deliveries that begin in that state: they must reach their snapshot, none of
+        # them may sleep behind the waiting writer
+        native("deliveries-during-a-waiting-first-registration", ["w_live", "--mode", "gate", "--trials", 272, "--seed", seed + 38], timeout=600),
     ]
     return st
 
@@ -600,7 +610,9 @@ PLANS["C03"] = {
         "state, read from /proc). (b) strace -f: system calls between '--- SIG ---' and rt_sigreturn per thread must be a subset of "
         "{write, sendto(MSG_DONTWAIT)}. (a) counting global allocator: no heap operation while a dispatcher is active on the "
         "thread, under real-signal stress on registry, iterators and channel. distinct = (operation, variant, site#occurrence) "
-        "reached + action sets seen under strace",
+        "reached + action sets seen under strace. (d) three-party state (w_live gate): 1-3 deliveries parked inside the dispatcher, "
+        "a writer waiting for them in the first registration of another signal, 1-3 further deliveries sent then: each must reach "
+        "its snapshot (parked at the next failpoint); one found asleep in futex inside its dispatch bracket is the verdict",
         ["'every instruction boundary' became: every failpoint of every mutator/consumer path deterministically, arbitrary "
          "instructions statistically (real signals, allocator monitor only)",
          "an uncontended lock taken in the dispatcher is invisible to strace; the freeze sweep catches it where a frozen thread holds it"],
